@@ -40,15 +40,9 @@ Proof. exact rank_mono. Qed.
 (* Full statement would be c10_rank_mono without [unit_ends_tight]; the faithful model refutes it
    (known finding tdigest-D17: image min 0, max 40, centroids (10,w1) (20,w1) (30,w10):
    rank 0.5 = 0.08125 > rank 5 = 0.0625).  No data set has such a summary. *)
-Definition d17_view : view := mkView 0 40 [(10, 1%positive); (20, 1%positive); (30, 10%positive)] 12.
 Theorem c10_rank_mono_without_tight_ends_refuted :
   exists v x y r r', wf_view v /\ x <= y /\ rank v x = Ok (Some r) /\ rank v y = Ok (Some r') /\ r' < r.
-Proof.
-  exists d17_view, (1 # 2), 5. eexists. eexists.
-  split; [constructor; cbn; try discriminate; try reflexivity; repeat split; apply Qle_bool_iff; reflexivity|].
-  split; [apply Qle_bool_iff; reflexivity|]. split; [vm_compute; reflexivity|]. split; [vm_compute; reflexivity|].
-  reflexivity.
-Qed.
+Proof. exact rank_mono_without_tight_ends_refuted. Qed.
 
 (* ---------------- quantile ---------------- *)
 Theorem c10_quantile_total : forall v, wf_view v -> forall q, exists x, quantile v q = Ok (Some x).
@@ -69,7 +63,7 @@ Proof. exact quantile_mono. Qed.
 
 (* ---------------- cdf / pmf ---------------- *)
 Theorem c10_cdf_accepts_empty_split_list : forall v, v_cs v <> [] -> cdf v [] = Ok (Some [1]) /\ pmf v [] = Ok (Some [1]).
-Proof. intros v H. split; [apply cdf_empty_splits|apply pmf_empty_splits]; exact H. Qed.
+Proof. exact cdf_pmf_empty_splits. Qed.
 
 (* every strictly increasing split list is accepted; cdf = ranks of the split points, then 1 *)
 Theorem c10_cdf_is_ranks_then_one : forall v, wf_view v -> forall sp, strictly_increasing sp = true ->
@@ -119,7 +113,7 @@ Proof. exact resolution_le_half. Qed.
 
 (* non-vacuity of the duplicate-means bound, and the 1/2 constant failing there: total 12,
    quantile 0 = 5, rank 5 = 7.75/12, block_resolution = 11/12, half of it would be 5.5/12 *)
-Definition dup_view : view := mkView 5 9 [(5, 10%positive); (5, 1%positive); (9, 1%positive)] 12.
+(* dup_view (Proofs/TDigestProofsBlocks.v) = min 5, max 9, centroids (5,w10) (5,w1) (9,w1) *)
 Example c10_example_duplicate_means :
   wf_view dup_view /\ ~ strictP (v_cs dup_view) /\
   exists x rho, quantile dup_view 0 = Ok (Some x) /\ rank dup_view x = Ok (Some rho) /\
@@ -152,7 +146,7 @@ Proof. exact inproc_view_wf. Qed.
 (* an image with heavy first and last centroids (never produced in process): well-formed, tight,
    distinct means; rank 9 = 23/105 (the repaired left tail), quantile (33/42) = 31.25 (the repaired
    right tail), and rank (quantile (1/2)) = 1/2 *)
-Definition heavy_view : view := mkView 0 40 [(10, 10%positive); (20, 1%positive); (30, 10%positive)] 21.
+(* heavy_view (Proofs/TDigestProofsBlocks.v) = min 0, max 40, centroids (10,w10) (20,w1) (30,w10) *)
 Example c10_example :
   wf_view heavy_view /\ unit_ends_tight heavy_view /\ strictP (v_cs heavy_view) /\
   (exists r, rank heavy_view 9 = Ok (Some r) /\ r == 23 # 105) /\ (exists x, quantile heavy_view (33 # 42) = Ok (Some x) /\ x == 125 # 4) /\
